@@ -605,3 +605,20 @@ def objective_sequence(spec, weights, calls):
             return num(raw)
         outs.append(guarded(run))
     return outs
+
+
+def dominance_claims(pairs):
+    """bin_completion_utils.is_dominant(list1, list2) for each pair (an internal helper of bin completion, named in C04's
+    anchors).  Returns a list of True/False/None (None = the call raised), or None if the helper does not exist (any more)."""
+    try:
+        from prtpy.packing import bin_completion_utils as u
+        f = u.is_dominant
+    except Exception:
+        return None
+    out = []
+    for a, b in pairs:
+        try:
+            out.append(bool(f(list(a), list(b))))
+        except Exception:
+            out.append(None)
+    return out
